@@ -1,12 +1,32 @@
 //! Throw-away probes (`jv scratch`), not part of any check.
 pub fn run() {
-    use jiff::{civil::date, RoundMode, Span, SpanRound, Unit};
-    let z = date(2024, 6, 1).in_tz("UTC").unwrap();
-    let d = date(2024, 6, 1);
-    for s in [Span::new().hours(-36), Span::new().hours(36), Span::new().months(-1).days(-15), Span::new().months(1).days(15)] {
-        for m in [RoundMode::HalfCeil, RoundMode::HalfFloor, RoundMode::HalfTrunc, RoundMode::HalfExpand, RoundMode::HalfEven] {
-            let u = if s.get_months() != 0 { Unit::Month } else { Unit::Day };
-            println!("{s:?} {m:?} {u:?}: zoned {:?}  civil {:?}", s.round(SpanRound::new().smallest(u).mode(m).relative(&z)), s.round(SpanRound::new().smallest(u).mode(m).relative(d)));
-        }
+    use jiff::{civil::{date, time}, Span, ToSpan};
+    use std::hash::{Hash, Hasher};
+    fn h<T: Hash>(v: &T) -> u64 {
+        let mut s = std::collections::hash_map::DefaultHasher::new();
+        v.hash(&mut s);
+        s.finish()
     }
+    let a = date(2024, 1, 1).tomorrow().unwrap();
+    let b = date(2024, 1, 2);
+    println!("date eq {} hash eq {}", a == b, h(&a) == h(&b));
+    let a = date(2024, 1, 1).checked_add(1.day()).unwrap();
+    println!("date(add) eq {} hash eq {}", a == b, h(&a) == h(&b));
+    let a = date(2023, 12, 31).checked_add(2.days()).unwrap();
+    println!("date(add2) eq {} hash eq {}", a == b, h(&a) == h(&b));
+    let t1 = time(1, 0, 0, 0).checked_add(1.hour()).unwrap();
+    let t2 = time(2, 0, 0, 0);
+    println!("time eq {} hash eq {}", t1 == t2, h(&t1) == h(&t2));
+    let d1 = date(2024, 1, 1).at(1, 0, 0, 0).checked_add(25.hours()).unwrap();
+    let d2 = date(2024, 1, 2).at(2, 0, 0, 0);
+    println!("datetime eq {} hash eq {}", d1 == d2, h(&d1) == h(&d2));
+    let s1 = Span::new().try_years(5).unwrap().fieldwise();
+    let s2 = Span::new().years(5).fieldwise();
+    println!("span eq {} hash eq {}", s1 == s2, h(&s1) == h(&s2));
+    let o1 = jiff::tz::Offset::from_seconds(3600).unwrap();
+    let o2 = jiff::tz::offset(1);
+    println!("offset eq {} hash eq {}", o1 == o2, h(&o1) == h(&o2));
+    let w1: jiff::civil::ISOWeekDate = date(2024, 1, 2).iso_week_date();
+    let w2 = jiff::civil::ISOWeekDate::new(2024, 1, jiff::civil::Weekday::Tuesday).unwrap();
+    println!("iso eq {} hash eq {}", w1 == w2, h(&w1) == h(&w2));
 }
